@@ -1,6 +1,7 @@
 (* C17 - Long-form DIDs resolve offline, only in their own namespace, to what was created. *)
-From Coq Require Import ZArith NArith String List Bool.
-From Sidetree Require Import Base.Base64url Json.Json Json.Jcs Sidetree.Protocol Sidetree.JsonPatch Sidetree.Composer Sidetree.Parser Sidetree.LongForm.
+From Coq Require Import ZArith NArith String Ascii List Bool.
+From Sidetree Require Import Base.Base64url Json.Json Json.Jcs Sidetree.Protocol Sidetree.JsonPatch Sidetree.Composer Sidetree.Parser Sidetree.LongForm
+     Json.JcsProps Json.JcsRoundTrip Sidetree.JsonPatch Sidetree.Composer Sidetree.Validator Sidetree.Hashing Sidetree.JequivDecode Sidetree.ClientCreate Sidetree.LongFormComplete.
 Import ListNotations.
 Open Scope string_scope.
 
@@ -32,6 +33,26 @@ Theorem C17_initial_state_canonical : forall state bytes,
                            jcs (img_create_request "create" sd d) = Some bytes /\ (ty = "" \/ ty = "create").
 Proof. exact initial_state_canonical. Qed.
 Print Assumptions C17_initial_state_canonical.
+
+(* completeness: the long-form DID made of namespace, suffix and base64url of a create request
+   built by the create builder resolves - to exactly the create response of that request
+   (the same request always gives the same DID: build_create is a function) *)
+Theorem C17_built_did_resolves : forall uri_ok url_norm i bytes sd d ns sfx,
+  build_create i = Some (bytes, sd, d) -> ci_code i = 18%N ->
+  calc_mh (img_suffix_data sd) 18 = Some sfx ->
+  (1 <= count_char ":"%char ns)%nat ->
+  (Z.of_nat (String.length bytes) <= P_MaxOperationSize longform_protocol)%Z ->
+  (Z.of_nat (String.length (ci_recovery_c i)) <= P_MaxOperationHashLength longform_protocol)%Z ->
+  (Z.of_nat (String.length (ci_update_c i)) <= P_MaxOperationHashLength longform_protocol)%Z ->
+  (Z.of_nat (String.length (sd_delta_hash sd)) <= P_MaxOperationHashLength longform_protocol)%Z ->
+  (forall c, jcs (img_delta d) = Some c -> (Z.of_nat (String.length c) <= P_MaxDeltaSize longform_protocol)%Z) ->
+  Forall is_obj (ci_patches i) -> Forall wfnum (ci_patches i) -> wfnum (ci_origin i) ->
+  (forall p p', In p (ci_patches i) -> jequiv p p' ->
+                patch_enabled longform_protocol p' = true /\ validate_patch uri_ok url_norm p' = true) ->
+  resolve uri_ok url_norm ns (ns ++ ":" ++ sfx ++ ":" ++ b64_encode bytes) =
+  create_response uri_ok url_norm ns sfx (b64_encode bytes) bytes.
+Proof. exact built_longform_did_resolves. Qed.
+Print Assumptions C17_built_did_resolves.
 
 Example C17_nonvacuous :
   resolve (fun _ => true) (fun s => Some s) "did:ion" "did:ion:EiAabc" = None /\
